@@ -239,14 +239,20 @@ func init() {
 	Register(&PropertyDef{ID: "C18", Strata: append([]string{"clean-sync", "clean-pipeline", "clean-parallel", "bad-sync", "bad-pipeline", "bad-parallel", "oddkeys-sync", "filtered-sync", "filtered-pipeline", "filtered-parallel"}, c18MigratingStrata()...), Run: runC18, StepCap: 30000})
 }
 
-// c18MigratingStrata (SIM_C18_MIGRATING=1, exploration only, not part of the registered check): slots of the unit keys
-// migrate while the bidirectional cluster replay runs (wave-7 seed C19-n). On the unchanged tree the first runs show
-// partially replayed units and refused single-slot units that were not analysed (DESIGN.md 7.4 by-products).
+// c18MigratingRestarts (SIM_C18_MIGRATING_RESTARTS=1, exploration): after a reported error the link is started again and the
+// run goes on; by default a migrating run ends at the first reported error and is judged up to there.
+var c18MigratingRestarts = os.Getenv("SIM_C18_MIGRATING_RESTARTS") == "1"
+
+// c18MigratingStrata: slots of the unit keys migrate while the bidirectional cluster replay runs (added for wave-7 seed
+// C19-n; registered since the defect they exposed was repaired - a redirect answered to one transaction reached every
+// transaction pipelined behind it on the connection, DESIGN.md 7.3). A run ends at the first error the link reports and is
+// judged up to there: whole units only, single-slot, executed by the slot's owner or - under ASKING - by the importing
+// node for keys the owner has redirected. SIM_C18_MIGRATING=0 leaves the strata out.
 func c18MigratingStrata() []string {
-	if os.Getenv("SIM_C18_MIGRATING") == "1" {
-		return []string{"migrating-sync", "migrating-pipeline"}
+	if os.Getenv("SIM_C18_MIGRATING") == "0" {
+		return nil
 	}
-	return nil
+	return []string{"migrating-sync", "migrating-pipeline"}
 }
 
 func runC18(r *Run, stratum string) *Violation {
@@ -569,6 +575,7 @@ func runC18(r *Run, stratum string) *Violation {
 		}
 		return acts
 	}
+	restarts := 0
 	errSeen := 0
 	scanErrors := func() {
 		for ; errSeen < len(l.topo.Errors); errSeen++ {
@@ -590,10 +597,27 @@ func runC18(r *Run, stratum string) *Violation {
 	for r.BeginStep() {
 		r.Settle()
 		scanErrors()
+		if viol == nil && l.getPhase() == 2 && kind == "migrating" && c18MigratingRestarts && restarts < 10 && (l.sendErr != nil || l.spErr != nil) {
+			// a redirect the link could not follow is an error it reports; the tool starts the link again from what the
+			// target has committed (pipeline / parallel: later units may repeat)
+			r.Logf("RESTART after reported error: send=%v start=%v", l.sendErr, l.spErr)
+			restarts++
+			r.W.Fault("reported_restart")
+			for _, nd := range l.topo.Nodes {
+				for _, ss := range nd.Sessions {
+					if !ss.Dead {
+						nd.KillSession(ss, 0)
+					}
+				}
+			}
+			l.phase = 0
+			l.start()
+			continue
+		}
 		if viol != nil || l.getPhase() == 2 {
 			break
 		}
-		if l.getPhase() == 1 && l.remaining() == 0 && len(l.ready()) == 0 && r.W.ParkedNow() == 0 {
+		if l.getPhase() == 1 && l.remaining() == 0 && len(l.ready()) == 0 && r.W.ParkedNow() == 0 && (kind != "migrating" || len(l.topo.Migrating) == 0 || migrations >= maxMig) {
 			break
 		}
 		l.step(migActions())
@@ -757,12 +781,22 @@ func runC18(r *Run, stratum string) *Violation {
 			}
 		}
 	} else {
-		if l.getPhase() == 2 {
+		if l.getPhase() == 2 && kind == "migrating" && (l.sendErr != nil || l.spErr != nil) {
+			// a redirect the link could not follow (or a connection it lost to one): a reported error, the tool starts the
+			// link again. The run is judged up to here: what was executed is whole units, at the right nodes
+			simrt.Probe("c18_migrating_reported_error")
+		} else if l.getPhase() == 2 {
 			setV("C18.refused_good", "a routable unit was refused", "all units are single-slot but the replay ended: %v", l.sendErr)
 		}
 		for i := range units {
 			if len(units[i].cmds) == 0 { // everything filtered out: nothing to execute
 				continue
+			}
+			if kind == "migrating" && l.getPhase() == 2 && matched[i] <= 1 {
+				continue // the run ended with a reported error: the units behind it were not reached
+			}
+			if kind == "migrating" && restarts > 0 && matched[i] >= 1 {
+				continue // after a reported restart a unit may repeat; none is lost
 			}
 			if matched[i] != 1 && viol == nil {
 				setV("C18.good_unit_missing", "a single-slot unit was not executed exactly once", "unit %d (single slot %v) was executed %d times", i, keysOfMap(units[i].slots), matched[i])
